@@ -135,6 +135,27 @@ pub fn cmd_run(engine: &str, args: &[String], lookup: Lookup) -> i32 {
                     out.violations += 1;
                     out.partial["violations"] = serde_json::json!(out.violations);
                 }
+                Ok(Some(got)) => {
+                    // the fresh process did not die but the run violates the property there: that
+                    // execution is the finding (a death by memory exhaustion depends on what else
+                    // runs on the machine; the violation does not). Confirm it once more.
+                    let rf2 = scn.replay_file_for_run(engine, seed, i, thorough, got.clone());
+                    let ok = crate::report::write_json_atomic(&path, &serde_json::to_value(&rf2).unwrap()).is_ok()
+                        && matches!(crate::batch::replay_in_fresh_process(&path), Ok(Some(again)) if again.same_kind(&got));
+                    if ok {
+                        out.lines.push(format!("VIOLATION property={property} replay={}", path.display()));
+                        out.lines.push(format!("  oracle={} class={} key={} :: {} (its shard process died: {detail})", got.oracle, got.class, got.key, got.message));
+                        out.violations += 1;
+                        out.partial["violations"] = serde_json::json!(out.violations);
+                    } else {
+                        out.harness_errors.push(format!("a shard died during run {i} ({detail}); a fresh process reported {}/{} for that run, but not twice", got.oracle, got.class));
+                    }
+                }
+                other if out.violations > 0 => {
+                    // a confirmed violation is reported by this batch already; a death that a
+                    // fresh process does not reproduce is noted, it does not hide the verdict
+                    out.lines.push(format!("NOTE a shard died during run {i} ({detail}); replaying that run in a fresh process gave {:?}", other.map(|x| x.map(|v| format!("{}/{}", v.oracle, v.class)))));
+                }
                 other => out.harness_errors.push(format!("a shard died during run {i} ({detail}) but replaying that run in a fresh process gave {:?}", other.map(|x| x.map(|v| format!("{}/{}", v.oracle, v.class))))),
             },
         }
